@@ -27,16 +27,18 @@ STEPS = ["start_roll", "propagation1_complete", "cache_expired1", "propagation2_
 META = {
     "category": "model_checking",
     "text": ("Extension X01 (key-set roll-over, keyset.rs): KeySet.tla transcribes every public call of "
-             "KeySet (six roll types, five roll states, key flags, TTL waits as ages); TLC proves on it, "
-             "exhaustively over 1-2 keys per role, that roll steps are ordered, refused calls change nothing, "
-             "conflicting rolls exclude each other (X01.2/3); KeySetEnv.tla adds an honest operator and the "
-             "resolvers' caches (superseded DNSKEY/DS/RRSIG versions with TTL lifetimes) and TLC proves that "
-             "every combination of cached/current RRset versions has a DS->DNSKEY->RRSIG chain at every step "
-             "of every accepted roll, that Action lists name every changed RRset, and that every started roll "
-             "completes under fairness (X01.1/4).  Bound to the code: every explored transition (state, call) "
-             "is injected into a real KeySet (serde) under an interposed wall clock and result, returned "
-             "actions and complete post-state compared; simulated behaviours are followed on one API-only "
-             "object; recorded random runs (12 keys, all calls) are validated by Trace_KeySet.tla."),
+             "KeySet (six roll types, five roll states, key flags, TTL waits as ages) as a transition function; "
+             "TLC proves on it, exhaustively over 1-2 keys per role (quick 27k, thorough 760k states), that roll "
+             "steps are ordered, refused calls change nothing and conflicting rolls exclude each other "
+             "(X01.2/3); KeySetEnv.tla adds an honest operator and the resolvers' caches (superseded "
+             "DNSKEY/DS/RRSIG versions with TTL lifetimes) and TLC proves that every combination of "
+             "cached/current RRset versions has a DS->DNSKEY->RRSIG chain at every step of every accepted "
+             "roll, that Action lists name every changed RRset, that old keys end up deletable, and that every "
+             "started roll completes under fairness (X01.1/4; quick 50k, thorough 950k states).  Bound to the "
+             "code: every explored transition (state, call) -- 221k quick -- is injected into a real KeySet "
+             "(serde) under an interposed wall clock and result, returned actions and complete post-state are "
+             "compared; 30k (thorough 300k) simulated transitions over 12 keys and all calls are also followed "
+             "on one API-only object; recorded random runs are validated by Trace_KeySet.tla."),
     "note": ("Trusted: TLC, the transcription of keyset.rs in KeySet.tla, the cache model of KeySetEnv.tla "
              "(operator reports propagation of the current RRset version; one TTL per RRset kind; ticks), the "
              "clock_gettime interposition, serde (de)serialization of KeySet for injection/projection. "
